@@ -54,8 +54,8 @@ MANIFEST = dict(
               "independent dimensional-analysis oracle on generated programs",
 )
 
-THEOREMS = ["C02_solver_sound", "C02_accept_sound", "C02_accept_sound_annotated", "C02_whole_input",
-            "C02_whole_input_accepted"]
+THEOREMS = ["C02_solver_sound", "C02_accept_sound", "C02_accept_sound_annotated", "C02_canonical_form",
+            "C02_whole_input", "C02_whole_input_accepted"]
 ALLOWED_AXIOMS = []
 IMPORTS = ["Dim.Model", "Dim.Infer", "Dim.Exec", "Gen.PreludeDims"]
 VO = ["theories/Props/C02.vo", "theories/Dim/Exec.vo", "theories/Gen/PreludeDims.vo"]
